@@ -460,8 +460,8 @@ Definition w_f10 : bytes := Eval compute in
 (* F11: d CR fm CR d CR text CR — CR-only line endings *)
 Definition w_f11 : bytes := Eval compute in
   B "---" ++ [x0d] ++ B "fm" ++ [x0d] ++ B "---" ++ [x0d] ++ B "text" ++ [x0d].
-(* F24: d LF d LF text LF — empty front matter *)
-Definition w_f24 : bytes := Eval compute in
+(* F25: d LF d LF text LF — empty front matter *)
+Definition w_f25 : bytes := Eval compute in
   B "---" ++ [x0a] ++ B "---" ++ [x0a] ++ B "text" ++ [x0a].
 
 Lemma split_vs_spec_later_crlf_refuted :
@@ -482,8 +482,8 @@ Lemma split_vs_spec_cr_only_refuted :
 Proof. split; [vm_compute; reflexivity|]. split; [do 2 eexists; vm_compute; reflexivity | vm_compute; reflexivity]. Qed.
 
 Lemma split_vs_spec_empty_fm_refuted :
-  split_off_front_matter w_f24 w_d = Ok None /\
-  (exists fm rest, spec_split w_f24 w_d = Some (fm, rest)) /\ fm_class w_f24 w_d = 2%N.
+  split_off_front_matter w_f25 w_d = Ok None /\
+  (exists fm rest, spec_split w_f25 w_d = Some (fm, rest)) /\ fm_class w_f25 w_d = 2%N.
 Proof. split; [vm_compute; reflexivity|]. split; [do 2 eexists; vm_compute; reflexivity | vm_compute; reflexivity]. Qed.
 
 Lemma split_vs_spec_refuted : ~ split_vs_spec_full_statement.
